@@ -332,7 +332,12 @@ def finish(eng, prop, tier, seed, targets, records, problems, crashes, missing, 
         if f is not None and (prop == 'all' or prop in f.get('properties', [prop])):
             known_hits.append((f, r))
             continue
-        if r['status'] == 'refuted' or norm_name(r['name']) in base_names:
+        if '(new attribute)' in r['name']:
+            # a field the contracts do not know is written: whether that matters depends on who reads it, which no
+            # obligation of this function decides (a bookkeeping field is harmless, a cache read by predict is not):
+            # never a violation by itself; the bounded leg decides on behaviour
+            undecided.append(r)
+        elif r['status'] == 'refuted' or norm_name(r['name']) in base_names:
             violations.append(r)
         else:
             undecided.append(r)
